@@ -112,6 +112,7 @@ func cfgWith(r *rand.Rand, need ...string) world.Cfg {
 }
 
 type acctState struct {
+	noPassword        bool // the account has no password hash (created through OAuth2)
 	confirmed         bool
 	attempts          int
 	last, locked      time.Duration
@@ -123,7 +124,11 @@ type acctState struct {
 }
 
 func (s acctState) seed(m *mach.M, pid string) {
-	m.SeedUser(pid, pw, s.confirmed, s.attempts, s.last, s.locked, s.hasLast, s.hasLock, s.otps, s.totp, s.sms, s.rec)
+	p := pw
+	if s.noPassword {
+		p = ""
+	}
+	m.SeedUser(pid, p, s.confirmed, s.attempts, s.last, s.locked, s.hasLast, s.hasLock, s.otps, s.totp, s.sms, s.rec)
 }
 
 // Run generates n pairs per kind.
@@ -187,6 +192,9 @@ func Run(seed int64, n int) *wire.Out {
 			}
 			if r.Intn(4) == 0 {
 				st.confirmed = false
+			}
+			if kind == "c" && r.Intn(4) == 0 {
+				st.noPassword = true
 			}
 		}
 		known := fmt.Sprintf("known%d@x.com", r.Intn(3))
